@@ -3,7 +3,7 @@
    check_case: the model computes what the implementation did.
    spec_case : what the implementation did satisfies the property, judged WITHOUT the automata:
                from the packets the clients sent and the bytes the handlers wrote alone. *)
-From Sdns Require Export Common.Base Gen.C10 C10.Model C10.ModelStream C10.ModelShare C10.ModelPool C10.ModelChains C10.ModelEdns C10.ModelFlight C10.ModelQuery C10.ModelWriter C10.ModelWrap.
+From Sdns Require Export Common.Base Gen.C10 C10.Model C10.ModelStream C10.ModelShare C10.ModelPool C10.ModelChains C10.ModelEdns C10.ModelFlight C10.ModelQuery C10.ModelWriter C10.ModelWrap C10.ModelPack.
 Open Scope N_scope.
 
 (* byte strings travel run-length encoded: (count, byte) *)
@@ -70,6 +70,11 @@ Inductive wreqN := WB (bs : rle) (ok : bool) (rc : N) | WM (m rc : N) (packed : 
    first / r is answered / r's chain unwinds through depth wrappers *)
 Inductive xopN := XB (r : N) (wraps : list (N * N)) | XW (r : N) | XE (r depth : N).
 
+(* the pooled pack state under a parked transport write: TryPack for request r borrows state k (numbered by
+   the address of the buffer the transport was handed) and packs bs / r's Transport.Write begins / r's
+   transport takes the bytes / r's TryPack returns *)
+Inductive popN := PP (r k : N) (bs : rle) | PWB (r : N) | PC (r : N) | PR (r : N).
+
 Inductive case :=
   (* sequential operations on the real udpEngine pieces: per client address the datagrams it
      received in order; the slabs at the end; did anything panic *)
@@ -111,6 +116,8 @@ Inductive case :=
      at the end: rcode, written, msg != nil, wire != nil *)
   (* observed per operation: for an answer, the request (exchange / stream) that received it *)
 | CaseWrap (ops : list xopN) (obs : list (option N))
+  (* observed, in the order the transports took them: (request, bytes taken) *)
+| CasePack (ops : list popN) (obs : list (N * rle))
 | CaseWPath (t : N) (tcp internal direct : bool) (reqs : list wreqN) (obs : list (option (N * option rle * N)))
             (fin : N * bool * bool * bool).
 
@@ -450,6 +457,20 @@ Fixpoint wraps_spec (live : list (N * list (N * N))) (levels : list (N * N)) (op
   | _, _ => false
   end.
 
+Definition pop_of (o : popN) : pact :=
+  match o with
+  | PP r k bs => PPack (N.to_nat r) (N.to_nat k) (unrle bs)
+  | PWB r => PWriteBegin (N.to_nat r)
+  | PC r => PCopy (N.to_nat r)
+  | PR r => PRelease (N.to_nat r)
+  end.
+Fixpoint packed_for (r : N) (ops : list popN) : option (list byte) :=
+  match ops with
+  | [] => None
+  | PP r' _ bs :: rest => if r' =? r then Some (unrle bs) else packed_for r rest
+  | _ :: rest => packed_for r rest
+  end.
+
 (* ------------------------------------------------------------------ check_case *)
 Definition check_case (c : case) : bool :=
   match c with
@@ -515,6 +536,14 @@ Definition check_case (c : case) : bool :=
       | None => false
       end
   | CaseWrap ops obs => run_xops x_init ops obs
+  | CasePack ops obs =>
+      (* every step ENABLED (the pool really could hand that state out: nobody has it borrowed) and
+         every transport took what the model says *)
+      match psteps_strict p_init (map pop_of ops) with
+      | Some s => list_eqb (fun a b => let '(r, got, _) := a in (N.of_nat r =? fst b) && bytes_eqb got (unrle (snd b)))
+                           (rev (p_log s)) obs
+      | None => false
+      end
   | CaseWPath t tcp internal direct reqs obs fin =>
       (* the previous state is irrelevant (base_writer_every_path_once): any stand-in will do *)
       let '(w, es) := wf_run (wf_bind (mkWfull 77 true true 300 3 (negb tcp) 9 true true) t tcp t internal direct) (map wreq_of reqs) in
@@ -597,6 +626,12 @@ Definition spec_case (c : case) : bool :=
          BufferWriter or the same chain *)
       forallb (fun o => opt_n_eqb (snd o) (q_first_write (fst o) ops)) obs && q_disjoint [] ops
   | CaseWrap ops obs => wraps_spec [] [] ops obs
+  | CasePack ops obs =>
+      (* judged on the observation alone: what a request's transport took is the packed form of ITS message *)
+      forallb (fun o => match packed_for (fst o) ops with
+                        | Some own => bytes_eqb (unrle (snd o)) own
+                        | None => false
+                        end) obs
   | CaseWPath t tcp internal direct reqs obs fin =>
       (* at most one transport call for the request, to the transport the chain is bound to, carrying
          the payload of the write it answers; a writer that is internal or not a declared byte sink
